@@ -245,7 +245,9 @@ theorem output_facts_ok :
     TaskModel.Gen.Output.groupWriteSkeleton = [] ∧
     TaskModel.Gen.Output.prefixWriteSkeleton = [] ∧
     TaskModel.Gen.Output.prefixWriteCalls = ["pw.writeOutputLines(false)"] ∧
-    TaskModel.Gen.Output.prefixCloseCalls = ["pw.writeOutputLines(true)"] := by decide
+    TaskModel.Gen.Output.prefixCloseCalls = ["pw.writeOutputLines(true)"] ∧
+    -- stdout and stderr of one command go through ONE writer object (the model's single `PW` / `GW`)
+    TaskModel.Gen.Output.prefixedWrapWriters = "same" ∧ TaskModel.Gen.Output.groupWrapWriters = "same" := by decide
 
 /-! ## non-vacuity -/
 example : ({ prefix_ := [112] } : PW).run [[97, 98], [10, 99], [100, 10, 101]] = [[97, 98, 10], [99, 100, 10], [101, 10]] := by decide
